@@ -107,6 +107,12 @@ class Unit:
                 raise LostAnchor('%s: no return type to name in %s' % (where, f.name))
             sig = sig[:pc] + sig[pc:][:m.start()] + '-> (%s: %s)' % (f.ret, m.group(1).strip())
         # ---- body rewrites (each logged)
+        for pat, repl, why in f.subs:
+            new, n = re.subn(pat, repl, body)
+            if n == 0:
+                raise LostAnchor('%s: rewrite /%s/ (%s) matched nothing' % (where, pat, why))
+            rep.rewrites.append({'where': where, 'rule': why, 'pattern': pat, 'replacement': repl, 'count': n})
+            body = new
         if f.hoist_format:
             body, log = rustsrc.replace_macro_calls(body, 'format', lambda a, k: 'opaque_string()')
             for b, a in log:
@@ -115,12 +121,6 @@ class Unit:
             body, log = rustsrc.replace_macro_calls(body, mac, lambda a, k: replacement)
             for b, a in log:
                 rep.rewrites.append({'where': where, 'rule': 'macro %s!(..) replaced' % mac, 'before': b, 'after': a})
-        for pat, repl, why in f.subs:
-            new, n = re.subn(pat, repl, body)
-            if n == 0:
-                raise LostAnchor('%s: rewrite /%s/ (%s) matched nothing' % (where, pat, why))
-            rep.rewrites.append({'where': where, 'rule': why, 'pattern': pat, 'replacement': repl, 'count': n})
-            body = new
         loop_specs = dict(f.loops)
         if f.enumerate_rule is not None:
             MARK = '/*@@ENUM-INV@@*/\n'
